@@ -134,8 +134,13 @@ Definition obs_match (s' : st) (o : out) (now : N) (ob : cobs) : bool :=
 (* a decision of this step was within MARGIN of a tie: two different scores closer than
    MARGIN, or a swap gap within MARGIN of the threshold *)
 Definition qabs_lt (q lim : Q) : bool := Qle_bool (Qabs q) lim.
-Definition tight (c : cfg) (now : N) (s s' : st) : bool :=
-  let es := s_cached s ++ s_cached s' in
+Definition tight (c : cfg) (now : N) (s s' : st) (me : ev) : bool :=
+  let cands := match me with
+               | Tick _ (AOk ps) _ =>
+                 map (fun p => apply_cached_issues decay_approx (s_im s) (mkEntry p (mkRel 0 now)) now) ps
+               | _ => []
+               end in
+  let es := s_cached s ++ s_cached s' ++ cands in
   let ts := map (fun e => total decay_approx e now) es in
   existsb (fun a => existsb (fun b =>
      (negb (Qeq_bool a b) && qabs_lt (a - b) MARGIN)
@@ -164,7 +169,7 @@ Fixpoint compare_run (c : cfg) (t : list (option bool)) (u : list path) (s : st)
         let dn := absdiffN (s_next_refetch s') (ob_next_refetch ob) in
         let tol := (ob_next_refetch ob - now) / 100000 + 2000 in
         if ok && (dn <=? tol) then compare_run c t u (set_next_refetch s' (ob_next_refetch ob)) r
-        else if tight c now s s' then 4 else 1
+        else if tight c now s s' me then 4 else 1
     end
   end.
 
@@ -202,6 +207,9 @@ Definition c05_step_ok (k : pcase) (x : list N * cev * cobs) : bool :=
 Definition c05_ok (k : pcase) : bool :=
   negb (panicked k) && forallb (c05_step_ok k) (offered_upto [] (k_evs k)).
 
+Definition spec_valid (c : cfg) (now : N) (p : path) : bool :=
+  match p_exp p with Some e => now + c_thresh c <? e * 1000000000 | None => false end.
+
 (* C06 *)
 Definition c06_step_ok (k : pcase) (eo : cev * cobs) : bool :=
   let '(e, ob) := eo in
@@ -216,10 +224,115 @@ Definition c06_step_ok (k : pcase) (eo : cev * cobs) : bool :=
       else true).
 Definition c06_ok (k : pcase) : bool := negb (panicked k) && forallb (c06_step_ok k) (k_evs k).
 
+(* "while a valid path is known a sender is not left without one", on timely histories: a send
+   that is not later than the next due tick gets no path although a cached path is valid *)
+Fixpoint c06_starved (k : pcase) (pre : option cobs) (evs : list (cev * cobs)) : bool :=
+  match evs with
+  | [] => false
+  | (e, ob) :: r =>
+    (match e, pre with
+     | CSend t, Some pv | CSendWait t, Some pv =>
+       ((ob_out ob =? 8) || (ob_out ob =? 9)) && ob_init pv
+       && (t <? ob_next_refetch pv) && (t <? ob_next_idle pv) && (ob_chan pv =? 0)
+       && existsb (fun id => spec_valid (k_cfg k) t (lookup (k_univ k) id)) (ob_cached ob)
+     | _, _ => false
+     end) || c06_starved k (Some ob) r
+  end.
+
 Definition verdict_with (ok : pcase -> bool) (k : pcase) : N :=
   model_mismatch k + (if ok k then 0 else 2).
 
 Definition verdict05 := verdict_with c05_ok.
-Definition verdict06 := verdict_with c06_ok.
+Definition verdict06 (k : pcase) : N :=
+  let starved := if k_t0 k =? 0 then false else c06_starved k None (k_evs k) in
+  model_mismatch k
+  + (if c06_ok k && negb (starved && negb (class_backoff (k_cfg k))) then 0 else 2)
+  + (if starved && class_backoff (k_cfg k) then 16 else 0).
 Definition verdicts05 (cs : list pcase) : list N := map verdict05 cs.
 Definition verdicts06 (cs : list pcase) : list N := map verdict06 cs.
+
+(** ** C07 oracles *)
+
+Fixpoint zip_totals (ids : list N) (ts : list Z) : list (N * Z) :=
+  match ids, ts with i :: ir, t :: tr => (i, t) :: zip_totals ir tr | _, _ => [] end.
+
+(* the premises of [failover_immediate], read off the observation AFTER the report (scores in
+   10^-6, with the comparison margin): some unaffected valid path outranks every affected valid
+   path and beats the (penalised) previously active path by more than the swap threshold *)
+Definition failover_premises (k : pcase) (i : issue) (now : N) (aid : N) (post : cobs) : bool :=
+  let c := k_cfg k in let u := k_univ k in
+  let zt := zip_totals (ob_cached post) (ob_totals post) in
+  let swap := q_to_micro (c_swap c) in
+  existsb (fun bt =>
+    let b := lookup u (fst bt) in
+    negb (affected i b) && spec_valid c now b
+    && forallb (fun mt => let m := lookup u (fst mt) in
+                          negb (affected i m && spec_valid c now m) || (snd mt + 100 <? snd bt)%Z) zt
+    && forallb (fun mt => negb (fst mt =? aid) || (swap + 100 <? snd bt - snd mt)%Z) zt) zt.
+
+(* verdict bits of one handled report: 0 fine, 2 unexplained, 16 / 32 known classes *)
+Definition check_issue (k : pcase) (i : issue) (now : N) (pre post : cobs) : N :=
+  let c := k_cfg k in let u := k_univ k in
+  match ob_active pre with
+  | None => 0
+  | Some aid =>
+    let a := lookup u aid in
+    if affected i a then
+      let alt := existsb (fun id => let p := lookup u id in negb (affected i p) && spec_valid c now p) (ob_cached pre) in
+      let post_ok := match ob_active post with Some x => negb (affected i (lookup u x)) | None => false end in
+      if negb alt || post_ok then 0
+      else if class_ingress i a then 32
+      else if failover_premises k i now aid post then 2
+      else 16
+    else
+      (* not about the path in use: the slot stays; about no cached path at all: nothing moves *)
+      if negb (optN_eqb (ob_active post) (ob_active pre)) then 2
+      else if negb (existsb (fun id => affected i (lookup u id)) (ob_cached pre))
+              && negb (list_eqb N.eqb (ob_cached post) (ob_cached pre)) then 2
+      else 0
+  end.
+
+Definition is_neg_penalty (q : Q) : bool := Qle_bool q (-(2 # 5)).
+
+Fixpoint c07_scan (k : pcase) (pre : option cobs) (pend : list issue) (evs : list (cev * cobs)) : list N :=
+  match evs with
+  | [] => []
+  | (e, ob) :: r =>
+    let '(bits, pend') :=
+      match e, pre with
+      | CReport _ i, _ => (0, if ob_out ob =? 3 then pend ++ [i] else pend)
+      | CDeliver now, Some pv =>
+        if ob_out ob =? 5
+        then (match pend with [i] => check_issue k i now pv ob | _ => 0 end,
+              skipn (length pend - N.to_nat (ob_chan ob)) pend)
+        else (0, pend)
+      | CDirect now i pen, Some pv =>
+        (match pend with [] => if is_neg_penalty pen then check_issue k i now pv ob else 0 | _ => 0 end,
+         skipn (length pend - N.to_nat (ob_chan ob)) pend)
+      | CTick _ _, _ => (0, skipn (length pend - N.to_nat (ob_chan ob)) pend)
+      | _, _ => (0, pend)
+      end in
+    bits :: c07_scan k (Some ob) pend' r
+  end.
+
+Definition any_bit (b : N) (l : list N) : bool := existsb (fun x => N.testbit x (N.log2 b)) l.
+Definition verdict07 (k : pcase) : N :=
+  let bits := if k_t0 k =? 0 then [] else c07_scan k None [] (k_evs k) in
+  model_mismatch k
+  + (if panicked k || any_bit 2 bits then 2 else 0)
+  + (if any_bit 16 bits then 16 else 0) + (if any_bit 32 bits then 32 else 0).
+Definition verdicts07 (cs : list pcase) : list N := map verdict07 cs.
+
+(** ** direct matching cases: IssueKind::target_type + IssueMarkerTarget::matches_path on one path *)
+Record mcase := mkM { mc_issue : issue; mc_path : path; mc_obs : option bool }.
+Definition optb_eqb (a b : option bool) : bool :=
+  match a, b with Some x, Some y => Bool.eqb x y | None, None => true | _, _ => false end.
+Definition verdict_match (m : mcase) : N :=
+  let model := option_map (fun t => matches_path t (mc_path m)) (target_type (mc_issue m)) in
+  (if optb_eqb model (mc_obs m) then 0 else 1)
+  + match mc_obs m with
+    | Some b => if Bool.eqb b (affected (mc_issue m) (mc_path m)) then 0
+                else if class_ingress (mc_issue m) (mc_path m) && negb b then 32 else 2
+    | None => 0
+    end.
+Definition verdicts_match (cs : list mcase) : list N := map verdict_match cs.
